@@ -24,3 +24,31 @@ Theorem C15_inst_rejection_shape :
 Proof. exact inst_rejection_shape. Qed.
 Print Assumptions C15_inst_rejection_shape.
 
+
+(* ---- the full field model of Fields.v as the leaves of the configuration (instance ConfigFields.v) ---- *)
+From Cinco Require Import Fields ConfigFields ConfigFieldsLemmas.
+
+(* the field model never raises the library's ValidationError itself: the configuration wraps every leaf failure *)
+Theorem C15_fields_plain_errors :
+  forall (orc : oracle) (f : field) (x : pyval) (q : str),
+    validate_with orc f x <> Err (EValidation q) /\ to_python_with orc f x <> Err (EValidation q).
+Proof. intros; split; [apply validate_plain_err|apply to_python_plain_err]. Qed.
+Print Assumptions C15_fields_plain_errors.
+
+Theorem C15_fields_rejection_shape :
+  forall (orc : oracle) (vt : vtable) (x : pyval) (w : world) (pre : str) (c : icfg) (fs : list (str * fnode)) (dyn : bool) (k : str)
+         (rl : bool) (w' : world) (c' : icfg) (e : errk),
+    set_value fleaf (cf_validate orc) (cf_to_python orc) (cf_default orc) fl_callable fl_flag (vrun vt) x w pre c fs dyn k rl
+      = (w', c', OErr e) ->
+    e = EAttribute \/ verr_below (path_join pre k) e.
+Proof. exact cf_rejection_shape. Qed.
+Print Assumptions C15_fields_rejection_shape.
+
+Theorem C15_fields_leaf_rejection_path :
+  forall (orc : oracle) (vt : vtable) (x : pyval) (w : world) (pre : str) (c : icfg) (fs : list (str * fnode)) (dyn : bool) (k : str)
+         (rl : bool) (w' : world) (c' : icfg) (e : errk) (f : fleaf),
+    fget fleaf k fs = Some (NLeaf f) ->
+    set_value fleaf (cf_validate orc) (cf_to_python orc) (cf_default orc) fl_callable fl_flag (vrun vt) x w pre c fs dyn k rl
+      = (w', c', OErr e) -> e = EValidation (path_join pre k).
+Proof. exact cf_leaf_rejection_path. Qed.
+Print Assumptions C15_fields_leaf_rejection_path.
